@@ -285,7 +285,16 @@ func runQueueOnce(cfg qcfg, patience time.Duration) (hist string, status string)
 	}
 	if cfg.park {
 		// wait until the runtime shows every consumer blocked inside Pull (bounded; the oracle does not depend on it)
-		for dl := time.Now().Add(2 * time.Second); parkedInQueue() < parkedBefore+cfg.nc && time.Now().Before(dl); {
+		dl := time.Now().Add(2 * time.Second)
+		if c20ParkTimeouts >= 5 {
+			dl = time.Now().Add(20 * time.Millisecond) // the runtime's goroutine states are not usable here: do not wait for them
+		}
+		for parkedInQueue() < parkedBefore+cfg.nc {
+			if time.Now().After(dl) {
+				c20ParkTimeouts++
+				fmt.Fprintf(os.Stderr, "c20: consumers not seen parked within the deadline (%d times so far)\n", c20ParkTimeouts)
+				break
+			}
 			time.Sleep(200 * time.Microsecond)
 		}
 		close(release)
@@ -329,6 +338,7 @@ wait:
 }
 
 var c20ConfirmedHangs int
+var c20ParkTimeouts int
 
 func c20QRun(c *Ctx, cfg qcfg) {
 	first := 5 * time.Second
@@ -855,6 +865,9 @@ func poolWork(g, n int, seed int64, types []reflect.Type) (digest string, rtFail
 var poolRunNo int
 
 func c20PoolRun(c *Ctx, G, n int, seed int64) {
+	if c20CacheBroken {
+		return // see c20CacheBroken
+	}
 	poolRunNo++
 	var obs string
 	s := guardT(120*time.Second, func() {
@@ -1253,6 +1266,11 @@ func replayC20(c *Ctx, op string, args []string) bool {
 		c20PlLocks(c)
 	case "queue.signals":
 		c20QueueSignals(c)
+	case "typeinfo.cache":
+		c20TypeinfoCache(c)
+	case "cache.run":
+		seed, _ := strconv.ParseInt(m["seed"], 10, 64)
+		c20CacheRun(c, c20Atoi(m["G"]), c20Atoi(m["T"]), c20Atoi(m["gmp"]), seed)
 	default:
 		return false
 	}
@@ -1262,6 +1280,19 @@ func replayC20(c *Ctx, op string, args []string) bool {
 func genC20(c *Ctx) {
 	locksOK := c20PlLocks(c)
 	c20QueueSignals(c)
+	c20TypeinfoCache(c)
+	// the per-type cache under concurrent first use, in a child process (a Go fatal error cannot be recovered)
+	for i := 0; i < c.N(3, 12); i++ {
+		ncpu := runtime.NumCPU()
+		gmp := []int{ncpu, 4, 8}[i%3]
+		if gmp > ncpu {
+			gmp = ncpu
+		}
+		if gmp < 2 {
+			gmp = 2
+		}
+		c20CacheRun(c, []int{16, 8, 32}[i%3], c.N(1000, 3000), gmp, c.R.Int63n(1<<40))
+	}
 	// k ≥ 2 consumers verified parked, then back-to-back pushes / a barrier of producers / Close
 	for i := 0; i < c.N(600, 6000) && c20ConfirmedHangs < 2; i++ {
 		c20QRun(c, genParkCfg(c.R, i))
